@@ -431,6 +431,21 @@ impl DownloadManifestBuilder {
         Ok(manifest)
     }
 
+    /// Verification shim (compiled only by the Kani model checker): a V1 builder over the given
+    /// entries and tags with an EMPTY name index (no hashing).
+    #[cfg(kani)]
+    pub fn verif_from_parts(entries: Vec<DownloadFileEntry>, tags: Vec<DownloadTag>) -> Self {
+        Self {
+            version: 1,
+            entries,
+            tags,
+            has_checksum: false,
+            flag_size: 0,
+            base_priority: 0,
+            tag_name_to_index: HashMap::new(),
+        }
+    }
+
     /// Create a builder from an existing manifest (for modification)
     pub fn from_manifest(manifest: &DownloadManifest) -> Self {
         let mut tag_name_to_index = HashMap::new();
